@@ -4,8 +4,8 @@ package main
 // ill-formed plugin config data: which key names the plugin (`type`, in any letter case), what happens with none,
 // several, a non-string one, data that is no map, a map with non-string keys; everything else is the user's settings.
 //
-// input : via=hookconf sh=<shape> form=c|f2 d=A/B/C dk=s|i|x pt=<t> conf=<key>~<s|n>~<value>,…
-// obs   : hc res=<pass | err.parse | noentry | err.other:… | ok.A/B/C> ev=<number of user-code invocations>
+// input : via=hookconf sh=<shape> form=c|f2 d=A/B/C dk=s|i|x pt=<t> [vmin=<n>] conf=<key>~<s|n>~<value>,…
+// obs   : hc res=<pass | err.parse | noentry | err.decode | err.valid | err.other:… | ok.A/B/C> ev=<number of user-code invocations>
 
 import (
 	"fmt"
@@ -26,6 +26,7 @@ func c18HookConf(kv map[string]string, w *world) string {
 	old := plugin.DefaultRegistry()
 	plugin.SetDefaultRegistry(reg)
 	defer plugin.SetDefaultRegistry(old)
+	defer setRule(w.vmin)()
 	registered := func() (ok bool) {
 		defer func() {
 			if r := recover(); r != nil {
@@ -85,6 +86,8 @@ func c18HookConf(kv map[string]string, w *world) string {
 				return "err.parse"
 			case strings.Contains(msg, "error(s) decoding"):
 				return "err.decode" // the decoder (fillConf) refused the user's settings
+			case isValidationErr(err):
+				return "err.valid" // the decoded configuration fails validation (fillConf = decode AND validate)
 			}
 			return "err.other:" + drv.Clean(msg)
 		case p == nil:
@@ -164,7 +167,7 @@ func hookConfGen(r interface{ Intn(int) int }, sh string, cfg byte) string {
 			conf = append(conf, k+"~s~x")
 		}
 	}
-	if cfg != 'n' {
+	if cfg != 'n' && r.Intn(4) != 0 { // every fourth: nothing but the plugin name
 		for _, k := range []string{"a", "b", "c"} {
 			if r.Intn(2) == 0 {
 				conf = append(conf, k+"~n~"+strconv.Itoa(1+r.Intn(90)))
@@ -179,6 +182,6 @@ func hookConfGen(r interface{ Intn(int) int }, sh string, cfg byte) string {
 	if r.Intn(8) == 0 {
 		pt = 1 + r.Intn(2)
 	}
-	return fmt.Sprintf("via=hookconf sh=%s form=%s d=%d/%d/%d dk=%s pt=%d conf=%s", sh, []string{"c", "f2"}[r.Intn(2)],
-		1+r.Intn(90), 1+r.Intn(90), 1+r.Intn(90), dk, pt, strings.Join(conf, ","))
+	return fmt.Sprintf("via=hookconf sh=%s form=%s d=%d/%d/%d dk=%s pt=%d vmin=%d conf=%s", sh, []string{"c", "f2"}[r.Intn(2)],
+		1+r.Intn(90), 1+r.Intn(90), 1+r.Intn(90), dk, pt, []int{0, 0, 0, 1, 1, 30, 60, 95}[r.Intn(8)], strings.Join(conf, ","))
 }
